@@ -1,6 +1,7 @@
 package lifecycle
 
 import (
+	"bufio"
 	"bytes"
 	"context"
 	"encoding/json"
@@ -31,6 +32,7 @@ type StepObs struct {
 	Count   [NSock]int     // listenerPool usage count per socket (0‥7 TCP addresses, 8 the unix socket)
 	Tags    [NSock][]int   // tags answering fresh connections on the socket (sorted, distinct)
 	UMode   int            // permission bits of the unix socket file, -1 if there is no such file
+	Stream  int            // 1: the harness opened an upgraded stream through the installed configuration's reverse proxy (fault 5) whose close will fail
 	Events  []string       // probe events of this operation, in real order
 	MPool   [NAddr]int     // references in the guest-module usage pool, per key
 	Writers [NAddr]int     // references in caddy's writers pool: [0] = stderr (relative to the start of the case), [k] = probe writer k
@@ -64,6 +66,7 @@ func allocAddrs() {
 		hold = append(hold, ln)
 		addrs[i] = ln.Addr().String()
 	}
+	startWsBackend() // while the probe ports are still held: its port is none of them
 	for _, ln := range hold {
 		ln.Close()
 	}
@@ -77,6 +80,98 @@ func allocAddrs() {
 }
 
 var unixSeq int
+
+// the WebSocket backend behind reverse proxy key StreamKey: accepts every upgrade and then holds
+// the connection. A fresh one (fresh address = fresh hosts pool key) for every case.
+var (
+	wsLn      net.Listener
+	wsStreams []net.Conn // client ends of the streams the harness has opened in this case
+)
+
+func startWsBackend() {
+	for _, c := range wsStreams {
+		c.Close()
+	}
+	wsStreams = nil
+	brokenPeers.Range(func(k, _ any) bool { brokenPeers.Delete(k); return true })
+	if wsLn != nil {
+		wsLn.Close()
+	}
+	ln, err := net.Listen("tcp", baseIP+":0")
+	if err != nil {
+		panic(err)
+	}
+	wsLn, wsAddr = ln, ln.Addr().String()
+	go func() {
+		for {
+			c, err := ln.Accept()
+			if err != nil {
+				return
+			}
+			go func(c net.Conn) {
+				defer c.Close()
+				br := bufio.NewReader(c)
+				for {
+					line, err := br.ReadString('\n')
+					if err != nil {
+						return
+					}
+					if line == "\r\n" {
+						break
+					}
+				}
+				_, _ = c.Write([]byte("HTTP/1.1 101 Switching Protocols\r\nConnection: Upgrade\r\nUpgrade: websocket\r\nSec-WebSocket-Accept: verif\r\n\r\n"))
+				_, _ = io.Copy(io.Discard, br)
+			}(c)
+		}
+	}()
+}
+
+// openStuckStream opens a WebSocket through the reverse proxy of the running configuration's HTTP
+// app that is marked fault 5 (if any) and declares the client connection broken: when the
+// configuration ends, closing the stream fails. Reports whether a stream is now open.
+func openStuckStream(running *Cfg) bool {
+	if running == nil {
+		return false
+	}
+	for _, a := range running.Apps {
+		has := false
+		for _, m := range a.Mods {
+			has = has || (m.IsRp() && m.Fault == 5)
+		}
+		if !a.IsHTTP() || !has {
+			continue
+		}
+		for _, ad := range a.Listen {
+			if ad >= NAddr {
+				continue
+			}
+			c, err := net.DialTimeout("tcp", addrs[ad], time.Second)
+			if err != nil {
+				return false
+			}
+			_ = c.SetDeadline(time.Now().Add(2 * time.Second))
+			_, _ = c.Write([]byte("GET " + streamPath + " HTTP/1.1\r\nHost: verif.invalid\r\nConnection: Upgrade\r\nUpgrade: websocket\r\nSec-WebSocket-Version: 13\r\nSec-WebSocket-Key: dmVyaWYtdmVyaWYtdmVyaQ==\r\n\r\n"))
+			br := bufio.NewReader(c)
+			status, err := br.ReadString('\n')
+			if err != nil || !strings.Contains(status, " 101 ") {
+				c.Close()
+				return false
+			}
+			for {
+				line, err := br.ReadString('\n')
+				if err != nil || line == "\r\n" {
+					break
+				}
+			}
+			_ = c.SetDeadline(time.Time{})
+			wsStreams = append(wsStreams, c)
+			brokenPeers.Store(c.LocalAddr().String(), true)
+			return true
+		}
+	}
+	return false
+}
 
 // unixClient talks HTTP over the unix socket file.
 var unixClient = &http.Client{
@@ -312,7 +407,10 @@ func sample(a int, count int) []int {
 			}
 			continue
 		}
-		b, _ := io.ReadAll(io.LimitReader(resp.Body, 64))
+		var b []byte
+		if resp.StatusCode == http.StatusOK {
+			b, _ = io.ReadAll(io.LimitReader(resp.Body, 64))
+		}
 		resp.Body.Close()
 		if len(b) > 1 && b[0] == 'T' {
 			if t, ok := atoi(string(b[1:])); ok {
@@ -494,6 +592,13 @@ func RunCase(ops []Op, enforce bool) []StepObs {
 			running = attempted
 			if o.Res != "same" {
 				runningCid = i
+			}
+		}
+		if o.Res == "ok" && op.Kind != 'V' && op.Kind != 'S' {
+			// a configuration has just been installed: if it has the reverse proxy with the stuck
+			// stream, open that stream now (it stays open until the configuration ends)
+			if openStuckStream(running) {
+				o.Stream = 1
 			}
 		}
 		want := wantSocks(running)
